@@ -225,6 +225,7 @@ func ResolveRoles(p *Prog) {
 	// grouping structs: fields of an unexported method-less (or anonymous) struct used by value inside one struct of the
 	// repository count as fields of that struct
 	nestedOwner = map[string]string{}
+	sharedGroup = map[string]bool{}
 	{
 		owners := map[string]map[string]bool{}
 		var visit func(owner string, st *types.Struct, depth int)
@@ -271,6 +272,8 @@ func ResolveRoles(p *Prog) {
 			}
 			if len(real) == 1 {
 				nestedOwner[k] = real[0]
+			} else if len(real) > 1 {
+				sharedGroup[k] = true
 			}
 		}
 	}
